@@ -266,6 +266,8 @@ static std::vector<std::vector<std::string>> histories(int k, bool thorough)
         {S, "P2", "SB"},
         {"SB", "C", S},
         {S, "P1", "SB"},
+        {S, "S0"},        // resumed with a condition that is already true: whatever is re-reported must still be described truthfully
+        {S, "S1", "S0"},  // a resume too short to get anywhere, then an expired one
     };
     if (thorough)
     {
